@@ -311,7 +311,8 @@ def transpose(score: ScoreLike, interval: Interval) -> ScoreLike:
     else:
         parts = []
     for part in parts:
-        for note in part.notes_tied:
+        # all notes: the later notes of a tie chain are notes with a pitch too
+        for note in part.notes:
             _transpose_note_inplace(note, interval)
     return new_score
 
